@@ -66,8 +66,14 @@ BACKLOG = [dict(base([{"sender": "s@rem.example", "rcpts": ["u%d@loc.example" % 
            for n, age in ((6, 200000), (24, 259200), (40, 130000), (12, 100000))]
 
 
+# message numbers beyond 32 bits (64-bit inode numbers): delivered, deferred and bounced recipients of a message placed in the queue under
+# such a number - the marks, the bounce record and the notice all go through the same file-name arithmetic (world feature of C04-M)
+BIGNUM = [base([{"sender": "s@rem.example", "rcpts": ["joe@loc.example", "ann@loc.example", "r@rem.example", "q@rem.example"], "body": "x\n", "preplaced_id": n}],
+               {"0:0": "K", "0:1": "D", "0:2": "ZD", "0:3": "ZZK"}, bscript="K") for n in (2 ** 32 + 77, 2 ** 48 + 5, 2 ** 63 + 9)]
+
+
 def run(ctx):
-    q.search(ctx, "C03", TAGS, 0, 0, fixed=QQ_FILTER + WIDE + BACKLOG)
+    q.search(ctx, "C03", TAGS, 0, 0, fixed=QQ_FILTER + WIDE + BACKLOG + BIGNUM)
     # every single allocation of the daemon failing once (out of memory is a transient failure like any other): the daemon is built to sleep
     # and go on; it may leave a job open until its next start, so only the safety core is judged - no recipient dropped, no bounce lost
     q.search(ctx, "C03", TAGS, 0, 0, sweep={"all": True, "faults_only": True, "fault_classes": ["malloc"], "malloc": True, "tags": ["C03-drop"]}, fixed=FULLY_SWEPT)
